@@ -1073,6 +1073,10 @@ fn decide(
                     (Parsed::Ok(x), Parsed::Ok(y)) => x.cmp_val(&y) != std::cmp::Ordering::Greater,
                     _ => false,
                 };
+                let legacy = !ai.contains('-') || !bi.contains('-');
+                if legacy && r.chance(0.8) {
+                    continue;
+                }
                 if cross && a.quote == b.quote && a.state != "pending" {
                     pick = Some((ai, a, bi, b));
                     break;
@@ -1132,7 +1136,13 @@ fn decide(
                     }
                     5 => ask_id = random_id(r, view, closed),
                     6 => bid_id = random_id(r, view, closed),
-                    7 => funds = vec![CoinS::new(1, &b.quote)],
+                    7 => {
+                        if r.chance(0.25) {
+                            funds = vec![CoinS::new(1, &b.quote)]
+                        } else {
+                            size = m + 1
+                        }
+                    }
                     8 => ask_id = ask_id.replace('-', ""),
                     _ => std::mem::swap(&mut ask_id, &mut bid_id),
                 }
@@ -1160,7 +1170,13 @@ fn decide(
             if r.chance(prof.p_mutate) {
                 match r.below(4) {
                     0 => sender = r.pick(&accounts).clone(),
-                    1 => funds = vec![CoinS::new(1, &cfg.base_denom)],
+                    1 => {
+                        if r.chance(0.25) {
+                            funds = vec![CoinS::new(1, &cfg.base_denom)]
+                        } else {
+                            sender = r.pick(&accounts).clone()
+                        }
+                    }
                     2 => id2 = random_id(r, view, closed),
                     _ => id2 = if id2.contains('-') { id2.replace('-', "") } else { id2.to_uppercase() },
                 }
@@ -1198,7 +1214,13 @@ fn decide(
             if r.chance(prof.p_mutate) {
                 match r.below(7) {
                     0 => sender = r.pick(&accounts).clone(),
-                    1 => funds = vec![CoinS::new(1, &cfg.base_denom)],
+                    1 => {
+                        if r.chance(0.25) {
+                            funds = vec![CoinS::new(1, &cfg.base_denom)]
+                        } else {
+                            size = Some(rem + inc)
+                        }
+                    }
                     2 => id2 = random_id(r, view, closed),
                     3 => size = Some(rem + inc),
                     4 => size = Some(0),
@@ -1294,10 +1316,16 @@ fn gen_modify(sim: &Sim, cfg: &Cfg, r: &mut Rng, accounts: &[String]) -> (String
                 },
                 2 => match cur {
                     Some(f) => (json!(f.rate.clone()), json!(r.pick(accounts).clone())),
-                    None => (json!(""), json!("")),
+                    None => (json!(*r.pick(&RATES_PLAIN)), json!(r.pick(accounts).clone())),
                 },
                 3 => (json!(*r.pick(&RATES_TIE)), json!(r.pick(accounts).clone())),
-                4 => (json!(""), json!("")),
+                4 => {
+                    if cur.is_some() || r.chance(0.2) {
+                        (json!(""), json!(""))
+                    } else {
+                        (json!(*r.pick(&RATES_TIE)), json!(r.pick(accounts).clone()))
+                    }
+                }
                 5 => (json!(*r.pick(&RATES_PLAIN)), Value::Null),
                 6 => (Value::Null, json!(r.pick(accounts).clone())),
                 7 => (json!(*r.pick(&["abc", "", "1,0"])), json!(r.pick(accounts).clone())),
@@ -1314,7 +1342,13 @@ fn gen_modify(sim: &Sim, cfg: &Cfg, r: &mut Rng, accounts: &[String]) -> (String
             let cur_attrs = if side == "ask" { &cfg.ask_attrs } else { &cfg.bid_attrs };
             let l: Vec<String> = match r.below(4) {
                 0 => vec![],
-                1 => cur_attrs.clone(),
+                1 => {
+                    if r.chance(0.2) {
+                        cur_attrs.clone()
+                    } else {
+                        vec!["ask.accredited".into()]
+                    }
+                }
                 2 => vec!["ask.kyc".into()],
                 _ => vec!["bid.kyc".into(), "ask.kyc".into()],
             };
